@@ -20,10 +20,16 @@ from vlib.val import line, Word, is_err
 from vlib.compare import diff, Err
 
 ID = 'C14'
-ASSUMPTIONS = ['the collocation (or normal) matrix of every generated problem is non-singular with condition number <= 2e4 '
-               '(the property quantifies over non-singular collocation only)',
+ASSUMPTIONS = ['generated problems have a non-singular collocation (or normal) matrix with condition number <= 2e4 (the '
+               "property's quantifier); for clamped continuous non-periodic bases at their Greville points or at nested "
+               'user parameters non-singularity is PROVED (Schoenberg-Whitney: C14_interpolate_curve_greville/_nested), '
+               'for periodic bases, least squares, cubic_curve and lofting it is a hypothesis of the theorems',
+               'the model\'s solve is the raw Gauss-Jordan Mat.solve (proved sound and complete; C14_solve_is_gauss_jordan), '
+               "numpy/scipy's LAPACK/SuperLU solves are trusted to approximate it within the stated tolerances",
                'loft: the section nets handed to the model are those produced by the REAL make_splines_identical '
-               '(property C12); the oracle runs the full loft on the raw sections']
+               '(property C12); the oracle runs the full loft on the raw sections',
+               'the rows of the theorems are Basis.evaluate rows; C14_interpolate_curve_spec/_splineVal/_evaluate convert '
+               'them to the specification B (C01) and to Obj.evaluate (C02) for admissible (tolerance-exact) parameters']
 RTOL = 1e-9
 ATOL = 1e-11
 KTOL = 1e-11          # knots (the model gets the float parameters; only rounding of sums differs)
